@@ -4,3 +4,4 @@ import Echse.Spec.Cal
 import Echse.Model.Strpf
 import Echse.Model.Scale
 import Echse.Model.Sort
+import Echse.Model.Stream
